@@ -66,4 +66,10 @@ theorem shared_unchanged (owner : Nat → Option Nat) (sched : List (Nat × Nat 
   rw [this]
   rfl
 
+/-- **No shared state is written.** From the write-set table regenerated from the source on every
+    run: no exported function or method writes a package-level variable (or passes its address to
+    code outside the library), and the only writes through parameters are `Decode` on its own
+    receiver — the discipline `cvss_disciplined` assumes of the operations goroutines share. -/
+theorem no_shared_state_written : Gen.Effects.exported.all Effects.rowOk = true := Effects.all_rows_ok
+
 end CvssVerif.Props.C16
